@@ -88,6 +88,7 @@ type Exec struct {
 	matchedCalls  map[string]bool
 	pureFuncs     map[string]bool
 	mergingSnap   bool
+	preludeText   string
 	labels        map[string]*State
 	exit          *State
 	bvN           int
